@@ -95,6 +95,20 @@ const PKGS: &[PkgDesc] = &[
     PkgDesc { name: "test:h", version: None, wat: r#"(component
         (import "foo:bar/types@1.2.0" (instance (export "t" (type (sub resource))) (export "u" (type (sub resource)))))
         (import "f" (func)) (export "f" (func 0)))"# },
+    // plugging: a socket with eight imports; one plug that fills all of them; two plugs that fill them between them
+    PkgDesc { name: "test:socket", version: None, wat: r#"(component
+        (import "sa" (func)) (import "sb" (func)) (import "sc" (func)) (import "sd" (func)) (import "se" (func)) (import "sf" (func))
+        (import "si" (instance (export "x" (func)))) (import "sj" (instance (export "x" (func)) (export "y" (func))))
+        (export "out" (func 0)) (export "out-i" (instance 1)))"# },
+    PkgDesc { name: "test:plug-all", version: None, wat: r#"(component
+        (import "z" (func)) (import "zi" (instance (export "x" (func)) (export "y" (func))))
+        (export "sa" (func 0)) (export "sb" (func 0)) (export "sc" (func 0)) (export "sd" (func 0)) (export "se" (func 0)) (export "sf" (func 0))
+        (export "si" (instance 0)) (export "sj" (instance 0)))"# },
+    PkgDesc { name: "test:plug-half", version: None, wat: r#"(component
+        (import "z" (func)) (export "sa" (func 0)) (export "sb" (func 0)) (export "sc" (func 0)))"# },
+    PkgDesc { name: "test:plug-rest", version: None, wat: r#"(component
+        (import "k" (func)) (import "zi" (instance (export "x" (func)) (export "y" (func))))
+        (export "sd" (func 0)) (export "se" (func 0)) (export "sf" (func 0)) (export "si" (instance 0)) (export "sj" (instance 0)))"# },
 ];
 
 struct Local { defs: Vec<Type>, kinds: Vec<ItemKind> }
@@ -158,7 +172,7 @@ fn mk_pkg(g: &mut CompositionGraph, i: usize) -> Package {
 #[derive(Clone, Debug)]
 enum Op { Reg(usize), Unreg(usize, usize), Def(usize, usize), Imp(usize, usize), Inst(usize, usize), Alias(usize, usize),
     SetArg(usize, usize, usize), UnsetArg(usize, usize, usize), Export(usize, usize), Unexport(usize), Name(usize, usize), Rm(usize),
-    Plug(usize, usize) }
+    Plug(usize, usize), PlugList(usize, Vec<usize>) }
 
 fn show_op(o: &Op) -> String {
     match o {
@@ -167,6 +181,7 @@ fn show_op(o: &Op) -> String {
         Op::SetArg(i, a, n) => format!("setarg {i} {a} {n}"), Op::UnsetArg(i, a, n) => format!("unsetarg {i} {a} {n}"),
         Op::Export(n, e) => format!("export {n} {e}"), Op::Unexport(n) => format!("unexport {n}"), Op::Name(n, s) => format!("name {n} {s}"),
         Op::Rm(n) => format!("rm {n}"), Op::Plug(a, b) => format!("plug {a} {b}"),
+        Op::PlugList(s, ps) => format!("plugl {s}{}", ps.iter().map(|p| format!(" {p}")).collect::<String>()),
     }
 }
 fn parse_op(s: &str) -> Option<Op> {
@@ -176,7 +191,9 @@ fn parse_op(s: &str) -> Option<Op> {
         "reg" => Op::Reg(n(1)?), "unreg" => Op::Unreg(n(1)?, n(2)?), "def" => Op::Def(n(1)?, n(2)?), "imp" => Op::Imp(n(1)?, n(2)?),
         "inst" => Op::Inst(n(1)?, n(2)?), "alias" => Op::Alias(n(1)?, n(2)?), "setarg" => Op::SetArg(n(1)?, n(2)?, n(3)?),
         "unsetarg" => Op::UnsetArg(n(1)?, n(2)?, n(3)?), "export" => Op::Export(n(1)?, n(2)?), "unexport" => Op::Unexport(n(1)?),
-        "name" => Op::Name(n(1)?, n(2)?), "rm" => Op::Rm(n(1)?), "plug" => Op::Plug(n(1)?, n(2)?), _ => return None,
+        "name" => Op::Name(n(1)?, n(2)?), "rm" => Op::Rm(n(1)?), "plug" => Op::Plug(n(1)?, n(2)?),
+        "plugl" => { let ps: Option<Vec<usize>> = (2..f.len()).map(n).collect(); Op::PlugList(n(1)?, ps?) }
+        _ => return None,
     })
 }
 
@@ -231,6 +248,18 @@ impl Run {
                 let socket = live[*a % live.len()].1;
                 let plugs: Vec<PackageId> = live.iter().filter(|(_, p)| *p != socket).take(1 + *b % 4).map(|(_, p)| *p).collect();
                 match wac_graph::plug(&mut self.g, plugs, socket) { Ok(()) => "ok".into(), Err(e) => format!("E:{}", clean(&e.to_string())) }
+            }
+            Op::PlugList(sk, ps) => {
+                // library plug with the socket and the plugs named by package slot (generation 0), plugs in the given order
+                let socket = pk!(*sk, 0);
+                let mut plugs = Vec::new();
+                for p in ps { plugs.push(pk!(*p, 0)); }
+                match wac_graph::plug(&mut self.g, plugs, socket) {
+                    Ok(()) => "ok".into(),
+                    Err(e) => { let mut m = e.to_string(); let mut src = std::error::Error::source(&e);
+                        while let Some(x) = src { m.push_str(" / "); m.push_str(&x.to_string()); src = x.source(); }
+                        format!("E:{}", clean(&m)) }
+                }
             }
         }
     }
@@ -476,6 +505,26 @@ fn gen_overlapping(r: &mut Rng) -> Vec<Op> {
     ops
 }
 
+/// `wac_graph::plug`: one plug (or several) satisfying many imports of one socket; alias nodes and the socket's
+/// arguments must come out in the same order in every execution
+fn gen_plug(r: &mut Rng) -> Vec<Op> {
+    const SOCKET: usize = 9; const ALL: usize = 10; const HALF: usize = 11; const REST: usize = 12;
+    let mut ops = Vec::new();
+    // a few unrelated nodes first, so that node indexes differ from case to case
+    for k in 0..r.below(4) as usize { ops.push(Op::Imp(21 + k, r.below(4) as usize)); }
+    let mut regs: Vec<usize> = match r.below(4) { 0 => vec![SOCKET, ALL], 1 => vec![SOCKET, HALF, REST], 2 => vec![SOCKET, REST, HALF, ALL], _ => vec![SOCKET, ALL, HALF] };
+    if r.chance(1, 3) { regs.push(r.below(9) as usize); }
+    for i in (1..regs.len()).rev() { let j = r.below(i as u64 + 1) as usize; regs.swap(i, j); }
+    for p in &regs { ops.push(Op::Reg(*p)); }
+    let socket = regs.iter().position(|p| *p == SOCKET).unwrap();
+    let mut plugs: Vec<usize> = (0..regs.len()).filter(|i| *i != socket).collect();
+    for i in (1..plugs.len()).rev() { let j = r.below(i as u64 + 1) as usize; plugs.swap(i, j); }
+    if r.chance(1, 4) && plugs.len() > 1 { plugs.pop(); }
+    ops.push(Op::PlugList(socket, plugs));
+    for _ in 0..r.below(3) { ops.push(Op::Name(r.below(6) as usize, pick_name(r, 0, 11))); }
+    ops
+}
+
 fn random_op(run: &Run, r: &mut Rng) -> Op {
     let nodes = run.live_nodes();
     let pk: Vec<(usize, usize)> = run.pkgs.keys().filter(|k| !run.stale.contains(k)).cloned().collect();
@@ -612,6 +661,13 @@ fn main() {
         // emission-order witnesses of props/C16.v section 9 (checked against the model's prediction by c16.py)
         cases.push("H def 11 1;def 12 9;def 13 0".into());
         cases.push("H imp 21 0;imp 22 1;def 11 0;def 12 1;reg 0;inst 0 0".into());
+        // library plug(): one plug fills eight imports of the socket; two plugs fill them between them (both orders);
+        // a plug whose exports are already taken; socket registered last
+        cases.push("H reg 9;reg 10;plugl 0 1".into());
+        cases.push("H reg 9;reg 11;reg 12;plugl 0 1 2".into());
+        cases.push("H reg 9;reg 11;reg 12;plugl 0 2 1".into());
+        cases.push("H reg 9;reg 10;reg 11;plugl 0 2 1".into());
+        cases.push("H imp 21 0;reg 10;reg 12;reg 9;plugl 2 0 1;name 1 6".into());
         cases.push("H imp 21 7;imp 22 8".into());
         cases.push("H imp 21 7".into());
         cases.push("H imp 23 9;imp 22 8".into());
@@ -619,6 +675,7 @@ fn main() {
         for _ in 0..n_shape { cases.push(show(&gen_base_after_dependants(&mut r))); }
         for _ in 0..n_shape { cases.push(show(&gen_same_rank(&mut r))); }
         for _ in 0..n_shape { cases.push(show(&gen_overlapping(&mut r))); }
+        for _ in 0..(n_shape / 2).max(12) { cases.push(show(&gen_plug(&mut r))); }
         for _ in 0..n_rand { cases.push(show(&gen_random(&mut r, maxlen))); }
         cases.extend(inline_docs(&repo));
         collect_docs(&repo, &mut cases);
